@@ -129,4 +129,6 @@ collect() { # stage-name
 }
 collect miri-stacked
 collect miri-tree
+# coverage-guided stage (thorough tier only): source text + table selector chosen by libFuzzer, decided by the monitor's oracle
+"$(cd "$(dirname "$0")" && pwd)/fuzz.sh" "$TIER" "$OUT" c03_lexer_source 512
 exit 0
